@@ -16,7 +16,7 @@ LEVEL = 'exploration'
 RULE = ("case = <= 25 requests from {add (start on/off), rm (nostop on/off), "
         "start, stop, status, numprocesses, options} over the name pool "
         "{a, A, web, WEB, Web, '', ' x', 'a b', u-umlaut, '*', 'a*'} in any "
-        "letter case (match=simple), optionally on a daemon loaded from a "
+        "letter case (match=simple, glob or anchored regex), optionally on a daemon loaded from a "
         "configuration file with reloadconfig after edits that add / remove "
         "/ re-case sections.  After every request the daemon is drained and "
         "list, numwatchers, status (all) and stats (all) are compared with "
@@ -204,8 +204,14 @@ def execute(case):
                         'C15:rm-unknown-ok', 'rm of unknown %r answered ok'
                         % name))
             elif kind in ('start', 'stop'):
-                r = w.request(kind, {"name": name, "match": "simple",
+                mode = op[2] if len(op) > 2 else 'simple'
+                if not name.isalnum():
+                    mode = 'simple'      # pattern characters: keep it exact
+                pattern = name + '$' if mode == 'regex' else name
+                r = w.request(kind, {"name": pattern, "match": mode,
                                      "waiting": True})
+                if mode != 'simple':
+                    classes.add('request-by-pattern')
                 w.drain()
                 rep = r.reply() or {}
                 exists = name.lower() in model
@@ -295,8 +301,10 @@ def _strategy():
         st.tuples(st.just('add'), name, st.booleans()).map(list),
         st.tuples(st.just('rm'), name, st.booleans(),
                   st.booleans()).map(list),
-        st.tuples(st.just('start'), name).map(list),
-        st.tuples(st.just('stop'), name).map(list),
+        st.tuples(st.just('start'), name, st.sampled_from(
+            ['simple', 'glob', 'regex'])).map(list),
+        st.tuples(st.just('stop'), name, st.sampled_from(
+            ['simple', 'glob', 'regex'])).map(list),
         st.tuples(st.just('status'), name).map(list))
 
     @st.composite
